@@ -24,6 +24,9 @@ type Case struct {
 	// on every body, shared remain bodies) before the tasks start; otherwise
 	// the tasks make the first calls themselves, concurrently.
 	Pretouch bool `json:"pretouch"`
+	// ConcFirst: the concurrent phase runs before the sequential reference (and
+	// before the catalogue walk); only catalogue-free ops are used.
+	ConcFirst bool `json:"conc_first,omitempty"`
 }
 
 type FileM struct {
